@@ -18,7 +18,7 @@ CHECK = {'pkgs': ['tbls'],
           'refused by ThresholdAggregate or does not Verify under the group key (mixed-message aggregates: for neither message). Thorough '
           'additionally n in 8..10: all subsets of size t and n (positive), all subsets of size t-1 and the empty set (too few), substitutions on '
           'every size-t subset for n=8 and on the first-t and last-t subsets for n=9,10; the quick tier also runs n=10 (the first two-digit share index) with '
-          't in {2,7,10} on two secrets. History dimension (the functions are pure; a process-wide cache of bounded capacity shows a defect only beyond its '
+          't in {2,7,10} on two secrets. Large clusters (size-dependent code paths such as chunked or parallel decoding show only above some count of partials): n in 11..25 with t in {2, ceil(2n/3), n} and n in {31,32,33,40} with t=2 (thorough: every n in 11..66 and n in {100,127,128,129,255,256,257}), two secrets, both splitters: for EVERY size k in t..n the first-k, last-k and an evenly spread k-subset are recovered and aggregated (all three messages) with the positive oracle; substitutions at the first, middle and last position of the first-t and last-t subsets; the empty set and size t-1 as too few. History dimension (the functions are pure; a process-wide cache of bounded capacity shows a defect only beyond its '
           'capacity): after each of K=10000 (thorough 70000) further distinct keys has been verified, the genuine signature of the first key still '
           'verifies, the newest key\'s signature over the same message is refused under the first key and vice versa, and the newest key\'s own verifies',
  'trusted': 'the oracle is black-box on the exported tbls functions (byte equality of their outputs, nil/non-nil of Verify); Sign(secret,msg) and '
